@@ -242,6 +242,16 @@ pub fn finish(
     extra: Value,
 ) -> i32 {
     let known = Known::load(&ctx.verif_dir.join("KNOWN_FINDINGS.txt"));
+    // Worker processes that died on a case and died again when that case was run alone: the code
+    // under test does not finish that case (hang -> watchdog, allocation abort, stack overflow).
+    let mut acc = acc;
+    for death in crate::isolate::take_deaths() {
+        acc.violation(
+            format!("{}/process-died/{}", ctx.property, death.status.split_whitespace().take(2).collect::<Vec<_>>().join("-")),
+            format!("the code under test did not finish case #{} of a worker pool ({}; reproduced when the case was run alone): hang, allocation abort or stack overflow", death.index, death.status),
+            serde_json::json!({"worker_death": true, "index": death.index, "status": death.status, "replay_with": format!("bin/check {} {}", ctx.property, ctx.tier.name())}),
+        );
+    }
     let mut by_sig: BTreeMap<String, Vec<&Violation>> = BTreeMap::new();
     for v in &acc.violations {
         by_sig.entry(v.sig.clone()).or_default().push(v);
@@ -349,15 +359,14 @@ pub fn finish(
         }
         return 2;
     }
+    if new_violations > 0 {
+        return 1;
+    }
     if !missing_gates.is_empty() {
         ctx.say(&format!(
             "MACHINERY ERROR: vacuous exploration, gates not observed: {missing_gates:?}"
         ));
         return 2;
     }
-    if new_violations > 0 {
-        1
-    } else {
-        0
-    }
+    0
 }
